@@ -265,6 +265,8 @@ class Harness:
                 if key not in [h[0] for h in self.known_hits]:
                     self.known_hits.append((key, k.get('what', message)))
                 return
+        if key in [v[0] for v in self.violations]:
+            return
         d = os.path.join(VERIF, 'replays', self.pid)
         os.makedirs(d, exist_ok=True)
         h = hashlib.sha1(key.encode()).hexdigest()[:10]
